@@ -278,8 +278,15 @@ async fn run_schedule(n: usize, probes: &[u64], sched: &[String], stats: &mut hx
                     Err(_) => Vec::new(),
                 };
                 let before = metadata_of(&nodes[i]).await;
+                // the store handle or the keyspace handle made from it: which one issues the call
+                // is not part of the event's meaning (it rotates with the token's text)
+                let via_ks = tok.bytes().map(|b| b as usize).sum::<usize>() % 2 == 1;
+                let ksh = nodes[i].handle.with_keyspace(KS);
                 let r = match (*kind, rest) {
-                    ("p", [k, pl]) => nodes[i].handle.put(KS, hx(k), hx(pl).to_le_bytes().to_vec(), level).await,
+                    ("p", [k, pl]) => {
+                        let data = hx(pl).to_le_bytes().to_vec();
+                        if via_ks { ksh.put(hx(k), data, level).await } else { nodes[i].handle.put(KS, hx(k), data, level).await }
+                    },
                     ("P", [items]) => {
                         let docs: Vec<(u64, Vec<u8>)> = items
                             .split(',')
@@ -288,15 +295,18 @@ async fn run_schedule(n: usize, probes: &[u64], sched: &[String], stats: &mut hx
                                 (hx(f[0]), hx(f[1]).to_le_bytes().to_vec())
                             })
                             .collect();
-                        nodes[i].handle.put_many(KS, docs, level).await
+                        if via_ks { ksh.put_many(docs, level).await } else { nodes[i].handle.put_many(KS, docs, level).await }
                     },
-                    ("d", [k]) => nodes[i].handle.del(KS, hx(k), level).await,
+                    ("d", [k]) => {
+                        if via_ks { ksh.del(hx(k), level).await } else { nodes[i].handle.del(KS, hx(k), level).await }
+                    },
                     ("D", [items]) => {
                         let ids: Vec<u64> = items.split(',').map(hx).collect();
-                        nodes[i].handle.del_many(KS, ids, level).await
+                        if via_ks { ksh.del_many(ids, level).await } else { nodes[i].handle.del_many(KS, ids, level).await }
                     },
                     _ => panic!("bad issue token {tok}"),
                 };
+                stats.hit(if via_ks { "issued_through_keyspace_handle" } else { "issued_through_store_handle" });
                 settle().await;
                 // the stamp the clock drew: the new/changed metadata rows of the issuer
                 let after = metadata_of(&nodes[i]).await;
@@ -622,6 +632,43 @@ async fn run_schedule(n: usize, probes: &[u64], sched: &[String], stats: &mut hx
                 }
             }
             have.sort();
+            // ... and what a client READS through the public handle of that node
+            let all_keys: Vec<u64> = {
+                let mut v: Vec<u64> = issued.iter().map(|x| x.0).collect();
+                v.sort();
+                v.dedup();
+                v
+            };
+            let mut read: Vec<(u64, u64, u64)> = Vec::new();
+            for k in &all_keys {
+                if let Ok(Some(d)) = nd.handle.get(KS, *k).await {
+                    read.push((*k, d.last_updated().as_u64(), payload_of(&d)));
+                }
+            }
+            let mut read_many: Vec<(u64, u64, u64)> = match nd.handle.get_many(KS, all_keys.clone()).await {
+                Ok(it) => it.map(|d| (d.id(), d.last_updated().as_u64(), payload_of(&d))).collect(),
+                Err(_) => vec![(u64::MAX, 0, 0)],
+            };
+            read_many.sort();
+            let ksh = nd.handle.with_keyspace(KS);
+            let mut read_ks: Vec<(u64, u64, u64)> = Vec::new();
+            for k in &all_keys {
+                if let Ok(Some(d)) = ksh.get(*k).await {
+                    read_ks.push((*k, d.last_updated().as_u64(), payload_of(&d)));
+                }
+            }
+            if read_ks != expect {
+                out.fails.push((
+                    "reads-are-not-the-lww-documents".into(),
+                    format!("node {}: the keyspace handle's get returns {:x?}, last-writer-wins is {:x?}", nd.id, read_ks, expect),
+                ));
+            }
+            if read != expect || read_many != expect {
+                out.fails.push((
+                    "reads-are-not-the-lww-documents".into(),
+                    format!("node {}: get returns {:x?}, get_many returns {:x?}, last-writer-wins is {:x?}", nd.id, read, read_many, expect),
+                ));
+            }
             if have != expect {
                 out.fails.push((
                     "nodes-did-not-converge-to-lww".into(),
